@@ -586,6 +586,7 @@ func TestZZVerifC08(t *testing.T) {
 		zvPartA(m, rng, pools)
 		zvPartB(m, rng, pools)
 		zvPartC(m, rng, pools)
+		zvPartD(m, rng)
 	}
 	m.flush()
 	if !zvRace {
@@ -595,8 +596,8 @@ func TestZZVerifC08(t *testing.T) {
 		run.Floor("resolver_resolutions", 2000)
 		run.Floor("sequences_sharing_a_policy", 2000)
 	} else {
-		run.Floor("race_compiles", 2000)
-		run.Floor("race_resolutions", 1000)
+		run.Floor("race_compiles", 10000)
+		run.Floor("race_resolutions", 5000)
 	}
 	run.Floor("decisions_compared", 1000000)
 	if run.Finish() == 1 {
@@ -770,4 +771,54 @@ func zvRandTokens(r *core.Rand, pools map[string][]*zpol, allPool []*zpol) []zto
 		toks = append(toks, t)
 	}
 	return toks
+}
+
+// Part D: the parsed-policy cache is keyed by the policy's content hash. Two policies whose hashed
+// fields (name, description, rules, datacenters) coincide only as a CONCATENATION but whose rule texts
+// differ must still get their own rules, whichever was compiled first.
+func zvPartD(m *zmon, rng *core.Rand) {
+	r := rng.Fork(0xD0)
+	n := core.N(40, 400)
+	kinds := []string{"node", "key", "service", "agent", "session", "event", "query"}
+	for i := 0; i < n && m.run.Violations() <= 30; i++ {
+		extra := &zpol{Rules: []zrule{{Kind: kinds[r.Intn(len(kinds))], Prefix: true, Name: zvRuleNames[r.Intn(3)], Policy: "write"}}}
+		base := &zpol{Rules: []zrule{{Kind: "key", Prefix: r.Chance(50), Name: "web", Policy: []string{"read", "deny", "write"}[r.Intn(3)]}}}
+		extra.Text, base.Text = extra.render(), base.render()
+		extra.Label, base.Label = "D-extra:"+extra.Text, "D-base:"+base.Text
+		both := &zpol{Rules: append(append([]zrule(nil), extra.Rules...), base.Rules...)}
+		both.Text = "\n" + extra.Text + base.Text
+		both.Label = "D-both:" + both.Text
+		// X: rules = base only, the extra rule text sits in the description. Y: rules = extra + base.
+		x := &structs.ACLPolicy{ID: zvUUID("D-x", fmt.Sprint(i)), Name: "zvp", Description: "q\n" + extra.Text, Rules: base.Text}
+		y := &structs.ACLPolicy{ID: zvUUID("D-y", fmt.Sprint(i)), Name: "zvpq", Description: "", Rules: both.Text}
+		x.SetHash(true)
+		y.SetHash(true)
+		order := []*structs.ACLPolicy{y, x}
+		specs := []*zpol{both, base}
+		if r.Chance(30) {
+			order, specs = []*structs.ACLPolicy{x, y}, []*zpol{base, both}
+		}
+		caches := zvCaches(zvServerCaches)
+		for k, p := range order {
+			a, err := zvCompile(caches, []*structs.ACLPolicy{p})
+			m.count("compiles", 1)
+			if err != nil {
+				m.run.Inconclusive("part D policy does not compile: " + err.Error())
+				break
+			}
+			got, want := zvEvalCompiled(a), m.refVector([]*zpol{specs[k]})
+			m.count("decisions_compared", len(got))
+			if j := zvPickDiff(want, got); j >= 0 {
+				q, def := zvDescribe(j)
+				m.run.Violation("C08:parsed-policy-cache:content-hash-ambiguity",
+					fmt.Sprintf("policy %q (description %q, rules %q) compiled after policy %q (rules %q) through the same caches: %s(%q) default=%s is %c, its own rules give %c — both policies have the same content hash because the hashed fields are concatenated without separators, so the parsed-policy cache serves the other policy's rules",
+						p.Name, p.Description, p.Rules, order[1-k].Name, order[1-k].Rules, q.Fn, q.Arg, def, got[j], want[j]),
+					map[string]any{"part": "D", "compiled_in_order": order, "query": q, "default_policy": def, "reference": string(want[j]), "consul": string(got[j])})
+				break
+			}
+		}
+		m.run.Eval()
+		m.run.NonTrivial(core.Hash("D", x.Description, x.Rules))
+	}
+	m.count("partD_cases", n)
 }
